@@ -77,6 +77,10 @@ def main() -> int:
                 if isinstance(cfg.get('amap'), str):
                     cfg['amap'] = ast.literal_eval(cfg['amap'])
                 bad = scenario(cfg, ConSrc(inp), False)
+        elif 'hand_order' in rep:
+            from checks.c15_build_variants import hand_order_work
+            r = hand_order_work((tuple(rep['hand_order']), rep['variant']))
+            bad = [b['what'] for b in r.get('bad', []) if b.get('replayed')] if 'harness_error' not in r else None
         elif 'text' in rep:
             prog = _loads_program(rep)
             import fsic
